@@ -1,4 +1,4 @@
-import DoltVerif.Lemmas.RowMerge
+import DoltVerif.Props.C29
 /-!
 C43 — conflict tables and conflict resolution are exact (model: `conflictRows`, `resolve`,
 `applyTheirs` of `Model/RowMerge.lean`; the conflict artifacts of a merge are the conflicted keys,
@@ -99,6 +99,48 @@ theorem resolve_idempotent (ours ours' : Bool) (right : Table) (m m' : Merged)
     | false => exact (resolve_theirs right m m' h).1
   unfold resolve
   simp [hc]
+
+/-- **conflict table of a merge = the property's conflicts.**  For tables sharing a schema: the keys
+listed by `dolt_conflicts_<t>` after the merge are exactly the keys the cell-wise specification
+calls conflicts, and each such row shows the stored base row, OURS' row (which the table still
+holds) and theirs' row. -/
+theorem conflict_table_matches_spec (s : Schema) (hd : idsDistinct s = true) (base ours theirs : Rows)
+    (hb : tableOk ⟨s, base⟩ = true) (ho : tableOk ⟨s, ours⟩ = true) (ht : tableOk ⟨s, theirs⟩ = true) :
+    ∃ m, mergeTable ⟨s, base⟩ ⟨s, ours⟩ ⟨s, theirs⟩ = .ok m ∧
+      (∀ k, k ∈ (conflictRows ⟨s, base⟩ ⟨s, theirs⟩ m).map (·.key) ↔
+        (specKey s (get base k) (get ours k) (get theirs k)).2 = true) ∧
+      (∀ cr, cr ∈ conflictRows ⟨s, base⟩ ⟨s, theirs⟩ m →
+        cr.base = (get base cr.key).map (viewRow s) ∧
+        cr.ours = (get ours cr.key).map (viewRow s) ∧
+        cr.theirs = (get theirs cr.key).map (viewRow s)) := by
+  obtain ⟨m, hm, hsch, hspec⟩ := C29.rowmerge_spec s hd base ours theirs hb ho ht
+  refine ⟨m, hm, fun k => ?_, fun cr hcr => ?_⟩
+  · rw [(conflict_table_exact ⟨s, base⟩ ⟨s, theirs⟩ m).1]
+    have := hspec k
+    simp only [Prod.ext_iff] at this
+    rw [← this.2]; simp
+  · obtain ⟨h1, h2, h3⟩ := (conflict_table_exact ⟨s, base⟩ ⟨s, theirs⟩ m).2 cr hcr
+    refine ⟨h1, ?_, h3⟩
+    -- a conflicted key keeps ours' row
+    have hk : cr.key ∈ m.conflicts := by
+      rw [← (conflict_table_exact ⟨s, base⟩ ⟨s, theirs⟩ m).1]
+      exact List.mem_map_of_mem hcr
+    have hs := hspec cr.key
+    simp only [Prod.ext_iff] at hs
+    have hconf : (specKey s (get base cr.key) (get ours cr.key) (get theirs cr.key)).2 = true := by
+      rw [← hs.2]; simpa using hk
+    have hrow : (specKey s (get base cr.key) (get ours cr.key) (get theirs cr.key)).1 = get ours cr.key := by
+      unfold specKey at hconf ⊢
+      by_cases c1 : get theirs cr.key = get base cr.key
+      · simp [c1] at hconf
+      · by_cases c2 : get ours cr.key = get base cr.key
+        · simp [c1, c2] at hconf
+        · by_cases c3 : get ours cr.key = get theirs cr.key
+          · simp [c1, c2, c3] at hconf
+          · simp only [c1, c2, c3, if_false] at hconf ⊢
+            cases hl : get ours cr.key <;> cases hr : get theirs cr.key <;> simp_all
+            split at hconf <;> simp_all
+    rw [h2, hsch, hs.1, hrow]
 
 /-- non-vacuity: a conflicted merge whose resolution with theirs installs theirs' row -/
 example :
